@@ -43,6 +43,16 @@ impl RoomNode {
                 "RoomNode has duplicate entries".to_string(),
             ));
         }
+        //an entry belongs to the list that a reference places it in: the reference carries the field and the entity of its owner
+        if !self.admin_nodes.iter().all(|user| {
+            is_placed(&self.admin_edges, ROOM_ADMIN_FIELD_SHORT, ROOM_ENT_SHORT, &user.node)
+        }) || !self.auth_nodes.iter().all(|auth| {
+            is_placed(&self.auth_edges, ROOM_AUTHORISATION_FIELD_SHORT, ROOM_ENT_SHORT, &auth.node)
+        }) {
+            return Err(Error::InvalidNode(
+                "RoomNode has an entry that is not placed in its list".to_string(),
+            ));
+        }
         //check admin consistency
         if self.admin_edges.len() != self.admin_nodes.len() {
             return Err(Error::InvalidNode(
@@ -215,6 +225,17 @@ impl AuthorisationNode {
         {
             return Err(Error::InvalidNode(
                 "AuthorisationNode has duplicate entries".to_string(),
+            ));
+        }
+        let placed = |edges: &Vec<Edge>, field: &str, node: &Node| {
+            is_placed(edges, field, AUTHORISATION_ENT_SHORT, node)
+        };
+        if !self.right_nodes.iter().all(|n| placed(&self.right_edges, AUTH_RIGHTS_FIELD_SHORT, &n.node))
+            || !self.user_nodes.iter().all(|n| placed(&self.user_edges, AUTH_USER_FIELD_SHORT, &n.node))
+            || !self.user_admin_nodes.iter().all(|n| placed(&self.user_admin_edges, AUTH_USER_ADMIN_FIELD_SHORT, &n.node))
+        {
+            return Err(Error::InvalidNode(
+                "AuthorisationNode has an entry that is not placed in its list".to_string(),
             ));
         }
         //check right consistency
@@ -531,6 +552,27 @@ impl EntityRightNode {
     }
 }
 
+///
+/// an entry is placed in a list by a reference that starts from the owner (checked by check_consistency) and carries
+/// the field of that list and the entity of the owner: the next read selects the entries of a list by that field
+///
+fn is_placed(edges: &[Edge], field: &str, src_entity: &str, node: &Node) -> bool {
+    edges
+        .iter()
+        .any(|e| e.dest.eq(&node.id) && e.label.eq(field) && e.src_entity.eq(src_entity))
+}
+
+///
+/// the references that attach the groups to the room are signed by an administrator at the reference's date:
+/// a group row names no room, this reference is what makes the group a group of this room
+///
+fn groups_placed_by_admins(room: &Room, room_node: &RoomNode) -> bool {
+    room_node
+        .auth_edges
+        .iter()
+        .all(|e| room.is_admin(&e.verifying_key, e.cdate))
+}
+
 fn has_duplicate_ids<'a>(ids: impl Iterator<Item = &'a Uid>) -> bool {
     let mut seen = std::collections::HashSet::new();
     for id in ids {
@@ -628,6 +670,11 @@ pub fn prepare_room_with_history(
     }
 
     //check authorisation
+    if !groups_placed_by_admins(&room, room_node) {
+        return Err(Error::InvalidNode(
+            "RoomNode Authorisation reference not authorised".to_string(),
+        ));
+    }
     for old_edge in &old_room_node.auth_edges {
         let auth_edge = &room_node.auth_edges.iter().find(|edge| edge.eq(old_edge));
         if auth_edge.is_none() {
@@ -702,6 +749,11 @@ pub fn prepare_new_room(room_node: &RoomNode) -> Result<()> {
     let room = room_node.parse()?;
 
     //verify rights
+    if !groups_placed_by_admins(&room, room_node) {
+        return Err(Error::InvalidNode(
+            "New RoomNode Authorisation reference not authorised".to_string(),
+        ));
+    }
     for admin in &room_node.admin_nodes {
         if !room.is_admin(&admin.node.verifying_key, admin.node.mdate) {
             return Err(Error::InvalidNode(
